@@ -301,6 +301,8 @@ def find_attr(klass, name):
 def undecorated(attr):
     """the function a decorator of funcutils wraps (functools.wraps sets __wrapped__; else look in the closure)."""
     f = attr.fget if isinstance(attr, property) else attr
+    if not inspect.isfunction(f) and inspect.isfunction(getattr(f, "func", None)):
+        f = f.func                  # e.g. functools.cached_property
     u = getattr(f, "__wrapped__", None)
     if u is None and getattr(f, "__closure__", None):
         fns = [c.cell_contents for c in f.__closure__ if inspect.isfunction(c.cell_contents)]
@@ -532,7 +534,7 @@ class Binding:
             def getter(self_, _orig=orig, _i=i + 1):
                 node = rec("p", _i, (), {})
                 try:
-                    return _orig.fget(self_)
+                    return _orig.__get__(self_, type(self_))
                 finally:
                     rec(None, node, None, None)
             ns[pc["name"]] = property(getter)
@@ -954,7 +956,9 @@ def judge(B, exp, exp_info, exp_pset, obs, ex=None, exp_keys=None, pre=None):
                     layout_reported = True
                 continue
             init, hits, misses, n = g
-            if misses != n or hits < misses or (init == 0 and (hits or misses or n)):
+            unchanged = pre is not None and oo <= len(pre[2]) and pre[2][oo - 1][j] is not None \
+                and list(pre[2][oo - 1][j]) == list(g)
+            if not unchanged and (misses != n or hits < misses or (init == 0 and (hits or misses or n))):
                 V("counters", f"obj{oo}.{name}: inconsistent bookkeeping hits={hits} misses={misses} entries={n}")
                 continue
             if list(e) == list(g) or stale("m", oo, j):
@@ -1493,7 +1497,7 @@ def discover(klass):
                 meths.append(name)
         for name in rp:
             owner, attr = find_attr(klass, name)
-            if name not in props and owner is k and isinstance(attr, property):
+            if name not in props and owner is k and not inspect.isfunction(attr):
                 props.append(name)
     for name in sorted(dir(klass)):
         try:
